@@ -660,3 +660,52 @@ _hdr("C12", """   NOTE (audit): the round-trip / reopen theorems assume wf_index
 _hdr("C20", """   NOTE (audit): static rule stated as `last_z data = sentinel`; with sorted in-type data that is "contains the reserved value"
      (corollaries in Reject2.v when present).  "A rejected insert leaves the container unchanged" holds by construction of the pure
      model (an Err result carries no state) and is CHECKED on the implementation by the dump comparison after every rejected call.""")
+
+# ---- closures after the audit: C07 without fp hypothesis, lo <= pos kept, bucketing early exits, C12 closed, C20 generalised,
+# ---- multidimensional build totality
+_add("C07", [("C07_route_trace_wide_std", "@check", "C07_route_trace_wide_std"), ("C07_route_trace_partial_std", "@check", "C07_route_trace_partial_std"),
+             ("C07_route_trace_bsearch_std", "@check", "C07_route_trace_bsearch_std")],
+     imports=("Fp", "FloatOkAll", "FloatOkCap", "ComposeIdx", "ComposeBuild", "ComposeFloat32", "ComposeTrace"))
+_hdr("C07", """   CLOSED (ComposeTrace.v): C07_route_trace_wide_std / _partial_std / _bsearch_std: build succeeds and the per-level trace bound
+     holds for every query below the sentinel with NO floating-point hypothesis and no segment-count hypothesis (double: n <= 2^30;
+     float: n + eps, n + 1 + eps_r <= 2^22 - 1).""")
+_add("C01", [("C01_index_contract_std_pos", "@check", "index_contract_std_pos"), ("C01_index_judges_std", "@check", "index_judges_std")],
+     imports=("ComposeTrace", "ComposeIdx2"))
+_hdr("C01", """   C01_index_contract_std_pos keeps lo <= pos (and the position band lb - eps - 2 <= pos <= lb + eps, lo/hi as the window of pos);
+     C01_index_judges_std: the run-time judge C01_pred_b is TRUE end to end for every present key.""")
+_add("C02", [("C02_index_contract_std_pos", "@check", "index_contract_std_pos")], imports=("ComposeTrace", "ComposeIdx2"))
+_add("C09", [("C09_early_exits", "@check", "bucketing_early_exits"), ("C09_contract_total_std_exits", "@check", "bucketing_contract_total_std_exits")],
+     imports=("ComposeBucket32", "ComposeBucket2"))
+_hdr("C09", """   C09_early_exits / C09_contract_total_std_exits: keys below the first key get the empty range at 0, keys above the last key the
+     empty range at n (with lb = 0 / n), together with the window contract.""")
+_add("C12", [("C12_wf_index_of_build", "@check", "wf_index_of_build"), ("C12_reopen_eq", "@check", "C12_reopen_eq"),
+             ("C12_reopen_from_range_closed", "@check", "C12_reopen_from_range_closed"), ("C12_reopen_answers", "@check", "C12_reopen_answers"),
+             ("C12_three_constructors", "@check", "C12_three_constructors"), ("C12_index_eq_not_enough", "@check", "index_eq_not_enough")],
+     imports=("Fp", "GenLeaf", "IndexModel", "IndexProofs", "ComposeIdx", "ComposeBuild", "MappedQueries", "MappedWf", "MappedEq", "ComposeMapped2"))
+_hdr("C12", """   CLOSED (MappedWf.v, MappedEq.v, ComposeMapped2.v): well-formedness of the built index is now DERIVED from the build
+     (C12_wf_index_of_build); every stored slope is canonical (a finite double, or the image of a finite float), so writing and
+     re-reading it is the identity for BOTH Floating types: C12_reopen_eq (reopen (file of m) = Ok m, Leibniz equality),
+     C12_reopen_answers (all four queries identical on the reopened container), C12_three_constructors (range ctor, raw-file ctor and
+     reopen all succeed and agree; n <= 2^30).  C12_index_eq_not_enough: bit-pattern equality alone would NOT give equal answers.""")
+_add("C13", [("C13_build_total", "@check", "multi_build_total"), ("C13_total_end_to_end", "@check", "multi_index_total_end_to_end"),
+             ("C13_build_outcome", "@check", "multi_build_outcome")],
+     imports=("ComposeMulti2", "ComposeMulti2Ex", "Reject", "Reject2", "ComposeMulti3"))
+_add("C14", [("C14_total_end_to_end", "@check", "multi_contains_total_end_to_end")], imports=("ComposeMulti2", "ComposeMulti2Ex", "Reject", "Reject2", "ComposeMulti3"))
+_hdr("C13", """   TOTALITY (ComposeMulti3.v): C13_build_total: the build succeeds for every non-empty multiset of points that fit the encoder
+     (n <= 2^30); C13_build_outcome: otherwise runtime_error; C13_total_end_to_end: existence of the index plus the range theorem.""")
+_add("C20", [("C20_dyn_bulk_unsorted_anywhere", "@checki", "dyn_bulk_rejects_unsorted_anywhere"),
+             ("C20_dyn_bulk_reserved_value_anywhere", "@checki", "dyn_bulk_rejects_reserved_value_anywhere"),
+             ("C20_dyn_bulk_invalid_iff", "@checki", "dyn_bulk_invalid_iff"),
+             ("C20_build_rejects_contains_iff", "@check", "build_rejects_contains_iff"),
+             ("C20_bucketing_rejects_contains", "@check", "bucketing_rejects_contains"), ("C20_ef_rejects_contains_iff", "@check", "ef_rejects_contains_iff"),
+             ("C20_mapped_rejects_contains_iff", "@check", "mapped_range_ctor_rejects_contains_iff"),
+             ("C20_compressed_rejects_contains_iff", "@check", "compressed_rejects_contains_iff"),
+             ("C20_multi_invalid_iff", "@check", "multi_invalid_iff"), ("C20_multi_reserved_code_rejected", "@check", "multi_reserved_code_rejected")],
+     imports=("Fp", "GenLeaf", "PlaModel", "IndexModel", "VariantsModel", "MappedModel", "CompressedModel", "MultiModel", "DynModel", "DynSpec", "DynExec",
+              "ComposeMulti2", "Reject2", "ComposeMulti3"))
+_hdr("C20", """   GENERALISED (Reject2.v, ComposeMulti3.v): an unsorted pair ANYWHERE (also between the first two pairs) and the reserved mapped
+     value anywhere (in the first pair of its key group: a shadowed duplicate is never constructed, in the model and in the C++) are
+     rejected by the bulk constructor, with the exact iff (C20_dyn_bulk_invalid_iff); the static rule in the property's wording
+     (sorted in-type data CONTAINING the reserved key) for PGMIndex / Elias-Fano / Mapped / Compressed (iff) and Bucketing
+     (implication: a too-narrow TopLevelBitSize is a second documented source); MultidimensionalPGMIndex never raises
+     invalid_argument: a point whose code is the reserved value has a too-wide coordinate and gets runtime_error.""")
